@@ -53,6 +53,17 @@ def classify(exc):
     return ["exception", type(exc).__name__, str(exc)]
 
 
+def join_done(threads, cds, m):
+    """wait (independently of machine load) for exactly the request threads whose entry the dispatcher has
+    completed or that never had one; requests still in flight block forever and are left alone"""
+    for i, t in enumerate(threads):
+        cd = cds[i] if i < len(cds) else None
+        if cd is None or cd not in m._inflight:
+            t.join(30)
+        else:
+            t.join(0.005)
+
+
 def run_sync(case):
     c = PahoClient()
     m = ms.Miniconf(c, PREFIX)
@@ -75,8 +86,7 @@ def run_sync(case):
     for msg in case["messages"]:
         topic, p = props_for(msg, cds)
         m._dispatch(None, None, MQTTMessage(topic, msg.get("payload", "").encode(), p))
-    for t in threads:
-        t.join(0.3 if any(r is None for r in results) else 0.01)
+    join_done(threads, cds, m)
     return [r if r is not None else ["pending"] for r in results], len(m._inflight)
 
 
@@ -221,8 +231,7 @@ def run_e2e_sync(case):
     packets, records, final = e2e_device(case, c.sent)
     for pk in packets:
         m._dispatch(None, None, MQTTMessage(pk["topic"], bytes(pk["payload"]), e2e_props(pk)))
-    for t in threads:
-        t.join(0.3 if any(r is None for r in results) else 0.01)
+    join_done(threads, [getattr(props, "CorrelationData", None) if props is not None else None for (_, props, _) in c.sent], m)
     return [[r if r is not None else ["pending"] for r in results], len(m._inflight), records, [[pk["topic"], pk["payload"], pk["props"]] for pk in packets], sent_json(c.sent)]
 
 
